@@ -419,6 +419,9 @@ def run(rep, tier, seed, replay=None):
     rng = common.mkrng(seed, 'C08')
     with common.Scratch() as tmp:
         info = common.std_static(rep, 'C08', GEN_GROUPS, AGREE, tmp)
+        rep.cov['trusted_base'] = sorted(set(rep.cov['trusted_base']) | {
+            'oracle: numpy.roots (output handed to the model as data; contract stated in the _partial theorems)',
+            'Base/BigF.v: 120-bit bigfloat evaluation of the model (unverified enclosure)'})
         # bezier_real_minmax is listed only to record why the translator tie is unavailable for it
         expected_untranslated = {'gen_bezier_real_minmax_4'}
         changed = bool(info['agree_failed']) or bool(set(info['untranslated']) - expected_untranslated)
